@@ -254,8 +254,37 @@ def doFromTo (l : Line) : Option String := do
         some s!"ok br={br} m={sm3 m}"
   | _ => none
 
+/-- `tsys dim=2|3 d=<default> p=<given> pi=cosπ,sinπ` → the matrix `transform_system` applies to
+the default vectors: `ok br=ident|rot m=…` / `err:value`. -/
+def doTsys (l : Line) : Option String := do
+  let tol2 : Rat := 1 / 10 ^ 20
+  let atol : Rat := 1 / 10 ^ 8
+  let rtol : Rat := 1 / 10 ^ 5
+  match l.nat? "dim" with
+  | some 2 => do
+      let d ← v2? l "d"
+      let p ← v2? l "p"
+      match tsMatrix2 sqrtApprox tol2 atol rtol d p with
+      | none => some "err:value"
+      | some m =>
+        let br := if m == M2.one then "ident" else "rot"
+        some s!"ok br={br} m={sm2 m}"
+  | some 3 => do
+      let d ← v3? l "d"
+      let p ← v3? l "p"
+      let (cpi, spi) ← match l.rats? "pi" with
+        | some [c, s] => some (c, s)
+        | _ => none
+      match tsMatrix3 sqrtApprox tol2 atol rtol cpi spi d p with
+      | none => some "err:value"
+      | some m =>
+        let br := if m == M3.one then "ident" else "rot"
+        some s!"ok br={br} m={sm3 m}"
+  | _ => none
+
 def handle (l : Line) : Option String :=
   match l.op with
+  | "tsys" => doTsys l
   | "fromto" => doFromTo l
   | "pt" => doPt l
   | "shape" => doShape l
